@@ -1063,6 +1063,7 @@ func (g *Gen) doTypeAssert(st *State, x *ssa.TypeAssert) *Val {
 			if kindOf(at) == KPtr {
 				// a node value of dynamic type at: its BaseNode is the one embedded in the object it points to
 				g.nodeBaseFactIf(okT, at, res.S, v.S)
+				_ = g.mkifSym(at) // boxing axioms of the type (an interface value is determined by dynamic type and pointer)
 			}
 		case KSlice:
 			res = unboxSlice(v.S, at)
@@ -1181,7 +1182,7 @@ func (g *Gen) mkifSym(ct types.Type) string {
 		g.emit(fmt.Sprintf("(declare-fun %s (Int) Int)", fn))
 		g.emit(fmt.Sprintf("(assert (forall ((p Int)) (! (and (not (= (%s p) 0)) (= (%s (%s p)) p) (= (iftype (%s p)) %d)) :pattern ((%s p)))))", fn, inv, fn, fn, tag, fn))
 		// an interface value is determined by its dynamic type and the value it holds: re-boxing what was unboxed gives it back
-		g.emit(fmt.Sprintf("(assert (forall ((v Int)) (! (=> (and (not (= v 0)) (= (iftype v) %d)) (= (%s (%s v)) v)) :pattern ((%s (%s v))))))", tag, fn, inv, fn, inv))
+		g.emit(fmt.Sprintf("(assert (forall ((v Int)) (! (=> (and (not (= v 0)) (= (iftype v) %d)) (= (%s (%s v)) v)) :pattern ((%s (%s v))) :pattern ((%s v) (iftype v)))))", tag, fn, inv, fn, inv, inv))
 	}
 	return fn
 }
